@@ -208,10 +208,15 @@ VerbSegs   == {Verbatim(3, "bash", b, t) : b \in {<<>>, <<Plain("echo")>>, <<Cmd
 ScrutSegs  == {Scrut(n, "", <<>>, b, TRUE) : n \in {3, 4}, b \in Bodies}
               \cup {Scrut(3, cfg, com, <<Cmd("c1"), Plain("out1")>>, t) :
                         cfg \in {"", "{timeout: 3s}"}, com \in {<<>>, <<Hash("a comment")>>}, t \in BOOLEAN}
-              \cup {Scrut(4, "", <<>>, <<Cmd("c1"), Fence(3), Plain("inner"), Fence(3)>>, TRUE)}
+              \cup {Scrut(4, "", <<>>, <<Cmd("c1"), Fence(3), Plain("inner"), Fence(3)>>, TRUE),
+                    \* an expectation that starts with a fence followed by text, and no bare fence of that length
+                    Scrut(4, "", <<>>, <<Cmd("c1"), Open(3, "js", ""), Plain("inner")>>, TRUE),
+                    \* an empty continuation line (`> `) and a command with trailing blanks
+                    Scrut(3, "", <<>>, <<Cmd("c1  "), Cont(""), Cont("c3"), Plain("out1")>>, TRUE)}
 LongSegs == {LongClose(Verbatim(3, "bash", <<Cmd("not a test")>>, TRUE)), LongClose(Scrut(3, "", <<>>, <<Cmd("c1"), Plain("out1")>>, TRUE))}
 Segs == ProseSegs \cup VerbSegs \cup ScrutSegs \cup LongSegs
-Core == LongSegs \cup {Prose(Blank), Prose(Header), Prose(Tick2), Prose(Rule), Verbatim(3, "@U@{a}", <<Plain("echo")>>, TRUE),
+Core == LongSegs \cup {Scrut(4, "", <<>>, <<Cmd("c1"), Open(3, "js", ""), Plain("inner")>>, TRUE),
+         Scrut(3, "", <<>>, <<Cmd("c1  "), Cont(""), Cont("c3"), Plain("out1")>>, TRUE)} \cup {Prose(Blank), Prose(Header), Prose(Tick2), Prose(Rule), Verbatim(3, "@U@{a}", <<Plain("echo")>>, TRUE),
          Verbatim(3, "bash", <<Cmd("not a test")>>, TRUE), Verbatim(4, "markdown", <<Open(3, "scrut", ""), Cmd("x"), Fence(3)>>, TRUE),
          Scrut(3, "", <<>>, <<Cmd("c1"), Plain("out1")>>, TRUE), Scrut(3, "{timeout: 3s}", <<Hash("a comment")>>, <<Cmd("c1"), Plain("out1")>>, TRUE),
          Scrut(4, "", <<>>, <<Cmd("c1"), Cont("c2")>>, TRUE), Scrut(3, "", <<>>, <<>>, TRUE)}
